@@ -211,6 +211,10 @@ pub fn evaluate(ctx: &Ctx, wd: &WorkDir, oracle_kind: &str, case: &Case, lkm: bo
             let b = run::run_cli(wd, &ctx.paths, mode_b, env_b, lkm);
             // a run that does not terminate normally is C21's business, unless only one of the two does
             let ok = |o: &RunOut| o.exit == Some(0) && !o.timed_out;
+            if a.timed_out || b.timed_out {
+                // a real-time tripwire is no basis for comparing two runs: termination is C21's business
+                return Err((viol("not_judgeable: no_termination", "a run exceeded the real-time tripwire"), vec![a, b]));
+            }
             if !ok(&a) && !ok(&b) {
                 let ka = oracle::panic_key(&a.stderr).unwrap_or_else(|| format!("exit {:?}", a.exit));
                 return Err((viol(format!("not_judgeable: {ka}"), "both runs failed to terminate normally"), vec![a, b]));
@@ -881,6 +885,7 @@ pub fn run_check(prop: &str, tier: &str, workloads_override: Option<u64>, dump: 
     let mut known_lines = BTreeSet::new();
     let mut seen_classes: BTreeSet<String> = BTreeSet::new();
     let mut unlisted = 0u64;
+    let mut slow_runs = 0u64;
     let wd = WorkDir::new(&work_root.join("min"), &ctx.paths);
     for f in &total.violations {
         let class = f.violation.class.clone();
@@ -906,6 +911,15 @@ pub fn run_check(prop: &str, tier: &str, workloads_override: Option<u64>, dump: 
             wd.write_workload(&serde_json::to_vec(&pcode).unwrap(), &elf);
             let confirm = evaluate(&ctx, &wd, &f.oracle, &case, lkm);
             if !matches!(&confirm, Err((v, _)) if v.class == class) {
+                if class == "no_termination" {
+                    // the only verdict that rests on real time: a run that was merely slow (machine
+                    // under load) is not a violation; it is counted and shown in the evidence
+                    slow_runs += 1;
+                    unlisted -= 1;
+                    seen_classes.remove(&class);
+                    println!("note: workload {} exceeded the tripwire once but completed when confirmed: counted as slow run", f.index);
+                    continue;
+                }
                 eprintln!("HARNESS ERROR: violation {class} of workload {} did not reproduce in a fresh process", f.index);
                 return 2;
             }
@@ -967,6 +981,7 @@ pub fn run_check(prop: &str, tier: &str, workloads_override: Option<u64>, dump: 
     extra.insert("runs_in_fresh_processes".into(), json!(total.runs - total.server_runs));
     extra.insert("server_mode_verdicts_not_confirmed_by_fresh_process".into(), json!(DISCREPANCIES.load(Ordering::SeqCst)));
     extra.insert("runs_that_took_the_server_down".into(), json!(total.server_fallbacks));
+    extra.insert("slow_runs_over_tripwire_that_completed_on_confirmation".into(), json!(slow_runs));
     extra.insert("known_findings_seen".into(), json!(known_lines.iter().collect::<Vec<_>>()));
     extra.insert("components".into(), json!({
         "real": ["src/caller/src/main.rs (argument parsing, check selection, sorting, printing)", "all of cwe_checker_lib (lifting, normalisation, CFG, fixpoints, every check, utils/log.rs)", "goblin ELF parsing", "shipped config.json / lkm_config.json"],
